@@ -37,7 +37,8 @@ CORPUS = ["address_line_1", "ipv4_address", "x_y_z", "HTTPStatus", "fooBar", "fo
           "json_name", "oneof_index", "proto3_optional", "deprecated_legacy_json_field_conflicts", "GetUInt64", "kabobCase",
           "trailing__", "A_B_C", "a_b_c", "aB", "Ab", "ABc", "AbC", "a_B", "A_b", "iOS", "macOS", "e2e", "k8s", "s3_bucket",
           "field1", "field_1", "Field1", "FIELD_1", "f1eld", "l10n", "i18n_key", "SHA256sum", "MD5hash", "HTTP2xx", "UTF8string",
-          "display_name", "displayName", "DisplayName", "page_token", "next_page_token", "etag", "uid", "create_time"]
+          "display_name", "displayName", "DisplayName", "page_token", "next_page_token", "etag", "uid", "create_time",
+          "_2fa", "_1st", "_3", "_1", "__1", "_9lives", "_", "__", "_a1"]
 
 
 def plan(tier, seed):
@@ -178,6 +179,19 @@ def check_identifier(x: str, res: Result, naming, bp):
             res.violation("safe", ["pythonize_enum_member_name", sh + "+prefixed", "not-an-identifier"], f"member {'COLOR_' + x.upper()!r} of enum Color -> {y2!r}", w)
     except Exception as e:
         res.violation("total", ["pythonize_enum_member_name", sh, "raised:" + type(e).__name__], f"{x!r}: {e!r}", w)
+    # members whose remainder after the stripped enum-name prefix needs the guard itself (digit first, keyword)
+    for enum_name, prefix in (("Color", "COLOR_"), ("HTTPStatus", "HTTP_STATUS_"), ("Version", "VERSION_")):
+        for member in (prefix + "1" + x.upper(), prefix + x, prefix + x.upper() + "_2_0", prefix + "_" + x):
+            try:
+                y = naming.pythonize_enum_member_name(member, enum_name)
+            except Exception as e:
+                res.violation("total", ["pythonize_enum_member_name", "prefixed-remainder", "raised:" + type(e).__name__], f"{member!r} of {enum_name}: {e!r}", w)
+                continue
+            res.counters["enum_member_names"] += 1
+            if not ident_ok(y):
+                rem = member[len(prefix):]
+                cls_ = "remainder-starts-with-digit" if rem[:1].isdigit() else ("remainder-is-keyword" if keyword.iskeyword(rem) else "other")
+                res.violation("safe", ["pythonize_enum_member_name", cls_, "not-an-identifier"], f"member {member!r} of enum {enum_name} -> {y!r}", w)
     # (b) keys map back
     try:
         py = naming.pythonize_field_name(x)
@@ -191,6 +205,7 @@ def check_identifier(x: str, res: Result, naming, bp):
         res.violation("usable", ["make-class", sh, "raised:" + type(e).__name__], f"field name {py!r} (from {x!r}) cannot carry a field: {e!r}", w)
         return
     m = cls(**{py: 42})
+    _check_positions(x, py, res, bp, w)
     sh = shape_py(ref_snake(x))
     if ref_snake(x) != bp.casing.snake_case(x):
         res.counters["snake_case_differs_from_frozen_rule"] += 1
@@ -227,6 +242,46 @@ def check_identifier(x: str, res: Result, naming, bp):
             if got != 42:
                 res.violation("key", ["maps-back:" + kname, sh, "field-dropped"],
                               f"proto field {x!r} -> python {py!r}: key {key!r} ({kname}) is not mapped back by {form} (value silently dropped)", w)
+
+
+def _check_positions(x, py, res: Result, bp, w):
+    """the same name as a oneof member and as the only field set inside a sub-message: set by attribute assignment /
+    instance from_dict, the key must appear in to_dict and come back -- whatever the name looks like"""
+    other = "zq_other_zq" if py != "zq_other_zq" else "zq_other2_zq"
+    try:
+        One = dataclasses.make_dataclass("OneOfHolder", [(py, int, bp.int32_field(1, group="g")), (other, str, bp.string_field(2, group="g"))],
+                                         bases=(bp.Message,), eq=False, repr=False)
+        Inner = dataclasses.make_dataclass("InnerHolder", [(py, int, bp.int32_field(1))], bases=(bp.Message,), eq=False, repr=False)
+        Outer = dataclasses.make_dataclass("OuterHolder", [("zq_inner_zq", Inner, bp.message_field(1))], bases=(bp.Message,), eq=False, repr=False)
+    except Exception as e:
+        res.violation("usable", ["make-class", shape(x), "raised:" + type(e).__name__], f"field name {py!r}: {e!r}", w)
+        return
+    sh = shape_py(ref_snake(x))
+    res.counters["position_roundtrips"] += 1
+    try:
+        o = One(**{other: "s"})
+        setattr(o, py, 42)
+        d = o.to_dict(casing=bp.Casing.SNAKE)
+        back = One().from_dict(d)
+        if bp.which_one_of(o, "g")[0] != py or len(d) != 1 or bp.which_one_of(back, "g") != (py, 42) or back.to_dict(casing=bp.Casing.SNAKE) != d:
+            res.violation("key", ["oneof-member-by-assignment", sh, "field-dropped"],
+                          f"proto field {x!r} -> python {py!r} as a oneof member set by assignment: which_one_of={bp.which_one_of(o, 'g')} to_dict={d} "
+                          f"after instance from_dict: {bp.which_one_of(back, 'g')}", w)
+        o2 = One(**{other: "s"}).from_dict({next(iter(d), py): 42}) if d else None
+        if o2 is not None and bp.which_one_of(o2, "g") != (py, 42):
+            res.violation("key", ["oneof-member-by-instance-from_dict", sh, "field-dropped"],
+                          f"proto field {x!r} -> python {py!r}: instance from_dict onto a message with another member selected gives {bp.which_one_of(o2, 'g')}", w)
+        out = Outer()
+        setattr(out.zq_inner_zq, py, 0)
+        setattr(out.zq_inner_zq, py, 7)
+        d = out.to_dict(casing=bp.Casing.SNAKE)
+        back = Outer().from_dict(d)
+        inner_d = d.get("zq_inner_zq")
+        if not isinstance(inner_d, dict) or list(inner_d.values()) != [7] or getattr(back.zq_inner_zq, py) != 7:
+            res.violation("key", ["only-field-of-a-sub-message", sh, "field-dropped"],
+                          f"proto field {x!r} -> python {py!r} as the only field set inside a sub-message: to_dict={d}", w)
+    except Exception as e:
+        res.violation("key", ["positions", sh, "raised:" + type(e).__name__], f"proto field {x!r} -> python {py!r}: {e!r}", w)
 
 
 def exhaustive(max_len):
